@@ -76,9 +76,33 @@ def child(case):
                     w = eng.world
                     d = eng.rng.randrange(1, 3)
                     if w.height() >= 2 * d + 2:
-                        w.switch_to(w.fork(d, d, rng=eng.rng, ntx=3))
-                        for _ in range(3):
-                            w.mempool_add(parent='confirmed')
+                        # a colliding coinbase for the new branch whose sibling (same 4-byte hash prefix) the index still holds unspent
+                        base_u = w.utxos(w.tip.ancestor(w.height() - d))
+                        prefixes = {(o[0][:4], o[1]) for o in base_u}
+                        has_sib = lambda t: any((t.hash[:4], i) in prefixes for i in range(len(t.outs)))
+                        sib = [t for t in w.reserved_cb if has_sib(t)] or [t for t in w.pending_cb if has_sib(t)]
+                        if sib:
+                            for lst in (w.reserved_cb, w.pending_cb):
+                                if sib[0] in lst:
+                                    lst.remove(sib[0])
+                            w.pending_cb.append(sib[0])          # make_block pops from the end
+                            w.coll_prob = 1.0
+                        tip = w.fork(d, d, rng=eng.rng, ntx=3)
+                        w.coll_prob = 0.5
+                        w.switch_to(tip)
+                        new_blocks = tip.chain()[tip.height - d + 1:]
+                        # spend outputs that exist only on the new branch - first of all those of coinbases whose hash shares
+                        # its 4-byte prefix with a coinbase the lagging index still holds unspent
+                        coll = [(b.txs[0].hash, i) for b in new_blocks if b.txs[0].hash in w.coll_hashes for i in range(len(b.txs[0].outs))]
+                        other = [(t.hash, i) for b in new_blocks for t in b.txs[1:] for i in range(len(t.outs))]
+                        sibs = {(o[0][:4], o[1]) for o in base_u}
+                        exact = [o for o in coll if (o[0][:4], o[1]) in sibs]
+                        if exact:
+                            # same prefix and same output index as an output the index holds: a sole wrong candidate
+                            coll = exact
+                            eng.bump('same_height_switch_spending_colliding_outputs')
+                        for k_ in range(3):
+                            w.mempool_add(parent='confirmed', n_in=1, prefer=(coll if k_ < 2 and coll else other))
                         eng.bump('placed:same_height_switch')
                         eng.event_log.append('same_height_switch')
             else:
@@ -153,7 +177,7 @@ def gen_cases(tier, seed):
                                                                     (rng.choice((0, 1, 2)), 'same_height_switch'),
                                                                     (rng.choice((1, 2, 'deserialize_txs')), 'mine_some')],
                       'txindex': k % 2 == 0, 'policy': 'random', 'p': 0.3, 'latency': None, 'chain': k % 3 == 0, 'prefetch': 100,
-                      'longpark_lookup': 0.7, 'reorg_limit': 8})
+                      'longpark_lookup': 0.7, 'reorg_limit': 8, 'colls': 5, 'coll_kind': 'diff'})
     n = 112 if tier == 'quick' else 800
     for i in range(n):
         attacks = [(wheres[(i + j) % len(wheres)], EVENTS[(i // 3 + j * 3) % len(EVENTS)]) for j in range(rng.randrange(2, 5))]
@@ -180,6 +204,7 @@ def run(tier, seed, replay=None):
         floors[f'placed:{ev}'] = 5
     floors['placed:same_height_switch'] = 5
     floors['lookup_jobs_held_back'] = 20
+    floors['same_height_switch_spending_colliding_outputs'] = 6
     for name, minimum in floors.items():
         rep.floor(name, c[name], minimum)
     return rep.finish(
